@@ -10,13 +10,13 @@ def P(level, rule, variants=None, nbatch=(8, 16), timeout=(600, 3000), **kw):
 PROPS = {
  'C11': P('exploration',
           'cases = (schema, base capacity, view offset/length, prefix, data seed, operation sequence); (a) every view of frames '
-          'up to 5 (quick) / 9 (thorough) rows x every single operation with all parameters x 12 column schemas (incl. pointer-free element types of 3, 10 and 12 bytes), (b) seeded random '
+          'up to 5 (quick) / 9 (thorough) rows x every single operation with all parameters x 13 column schemas (incl. pointer-free element types of 3, 10 and 12 bytes and a custom-codec type), (b) seeded random '
           'sequences of up to 30 operations over up to 4 live views. After every operation all storages (inside and outside views) '
           'and all views are compared with a slice-of-rows model. Non-trivial: the initial view has offset>0 or len<cap; distinct by descriptor.',
           variants={'quick': ['plain'], 'thorough': ['plain', 'checkptr']},
           must_observe=['ops_on_offset_views', 'storage_rows_checked']),
  'C07': P('fault_enumeration',
-          'fidelity cases = (schema, batch-size script, destination-size script, data seed) over 12 schemas incl. gob-only, pointer and odd-size pointer-free types, '
+          'fidelity cases = (schema, batch-size script, destination-size script, data seed) over 13 schemas incl. gob-only, pointer, odd-size pointer-free and custom-codec (frame.RegisterOps) types, '
           'empty batches, sizes around 128; damage cases = every single-bit flip and every truncation point of the encoded bytes of small '
           '3-batch streams (exhaustive per stream) and random 1-6 byte bursts on 4-batch streams. Oracle: rows delivered == rows written '
           '(fidelity); for damage inside a batch: an error, every row delivered before it correct and not beyond the damaged batch. '
@@ -26,7 +26,7 @@ PROPS = {
  'C10': P('exploration',
           'cases = (kind sort|merge|reduce, schema, key prefix, rows per stream, key distribution, spill target, canary rows, SpillBatchSize, '
           'upstream chunk scripts incl. empty non-final reads for sort and n>0-with-EOF, destination-size script, optional injected upstream '
-          'error at call j, data seed): a fixed regression list (sizes 0,1,2,127,128,129,700; all-equal keys; empty streams) plus seeded random '
+          'error at call j (alone, or together with up to k rows and followed by EOF), data seed): a fixed regression list (sizes 0,1,2,127,128,129,700; all-equal keys; empty streams) plus seeded random '
           'cases. Oracle: sorted permutation / sorted union / per-key sum; injected errors must surface; no spiller-* directory in the private '
           'TMPDIR after SortReader returns. Non-trivial: >=2 streams merged, or more rows than the canary (>=2 spills), or an error actually delivered.',
           must_observe=['sorts_with_multiple_spills', 'injected_errors_propagated', 'rows_merged', 'spill_dir_checks'], leftover_is_violation=True),
@@ -45,7 +45,7 @@ PROPS = {
           'cases: (a) exhaustive groups = (key schema, fold, alphabet size k, max length L, initial capacity in {1,2,4,8}, scratch in {1,2,8}, '
           'optionally keys brute-forced to collide in HashWithSeed&7): every key sequence over the alphabet up to length L is fed to a '
           'combining frame (views at non-zero offset) and compacted; (b) random skewed streams into combining frames with mid-stream '
-          'compactions; (c) random streams into the spilling combiner with spill thresholds 1..50 and larger, initial table sizes 1..128, '
+          'compactions; hot keys (one key fed 65535..140000 times without a compaction); (c) random streams into the spilling combiner with spill thresholds 1..50 and larger, initial table sizes 1..128, '
           'drained through a destination adversary or discarded. Oracle: map model with sum/xor/min; the verif hook in the probe loop asserts that '
           'a probe sequence ends within cap tries (a non-terminating probe is a violation, not a watchdog timeout). Non-trivial: group '
           'enumerated / table resized / combiner spilled at least once.',
@@ -75,7 +75,7 @@ PROPS = {
           'uint16/int16 keys; boundary (0, +-0.0, +-Inf, denormals, empty/long strings, integer limits) and random values for 15 key types; '
           '2- and 3-column prefixes; shard counts {1,2,3,4,7,16,17} (quick) / 1..17 (thorough); some runs on a testsystem; a narrowing family '
           '(Reshuffle/Cogroup by a 2-column key, Prefixed(1), then Cogroup/Reshuffle/Fold with the same shard count, first-column values '
-          'repeating); Reshard to the shard count a slice already has (known finding); two Repartitions of one slice. A WriterFunc after the '
+          'repeating; also with the first redistribution as an earlier invocation whose Result is re-prefixed); Reshard to the shard count a slice already has (known finding); two Repartitions of one slice. A WriterFunc after the '
           'operator records (shard,row). Oracle: equal keys (Go ==) -> one shard within a run; (operator class, type, key, nshard) -> shard is the same '
           'in every run of the process (different producers, offsets, executors) and, by digest, in every separately started child process '
           '(GOMAXPROCS varied per child); Repartition rows sit in the shard the function returned; aggregations emit each key once. '
@@ -121,7 +121,8 @@ PROPS = {
  'C12': P('exploration',
           'cases = (executor, base program, history of operations over the growing set of results): scan (1-4 concurrent scanners, optionally '
           'concurrent with the next operation), scanmid (a scanner reads K in {0,1,100,129,300} rows, the result is discarded, the scanner reads on: '
-          'all rows or an error, never short and clean), derive (a generated Func consuming one or two results through pipelined and redistributing '
+          'all rows or an error, never short and clean), blockedderive (R is discarded while the tasks of a Func over it wait for the session\'s only proc, held by a slow run), '
+          'rediscard (R, a discarded slowed-down Reduce, is discarded again when K% of its recomputation\'s combiner calls have been made), derive (a generated Func consuming one or two results through pipelined and redistributing '
           'operators), discard (optionally concurrent), kill a machine (testsystem). A fixed list runs every redistributing operator over a result '
           'argument before and after a discard, and six pairs of different redistributions of the same result inside one Func (two combiners, two '
           'widths, with and without combiner) joined by a Cogroup; seeded histories of 2..6 (quick) / 2..10 (thorough) operations follow, on local p=4 and a testsystem '
@@ -130,10 +131,10 @@ PROPS = {
           'of a discarded/lost result returns the reference rows or an error; nothing may fail on intact results; every operation returns. '
           'Non-trivial: a reuse after discard/kill happened, or >=2 concurrent scanners.',
           nbatch=(16, 16), timeout=(900, 3400),
-          must_observe=['derived_runs_ok', 'recomputations_after_discard_or_loss', 'scans_ok', 'concurrent_scan_groups', 'discards_in_mid_scan']),
+          must_observe=['derived_runs_ok', 'recomputations_after_discard_or_loss', 'scans_ok', 'concurrent_scan_groups', 'discards_in_mid_scan', 'discards_while_a_consumer_waited_for_a_proc', 'discards_during_the_recomputation_of_the_discarded_result']),
  'C06': P('fault_enumeration',
           'cases = (executor in {local p=1, local p=4, testsystem, testsystem+machine combiners}, call site in {readerfunc, scanreader open, '
-          'writerfunc, map, filter, flatmap, fold, reduce combiner, repartition function, scan callback}, mode in {error, temporary error, panic, '
+          'writerfunc, map, filter, flatmap, fold, reduce combiner, repartition function, scan callback}, mode in {error, error of base/errors with a kind but no severity, temporary error, panic, '
           'out-of-range partition} as applicable to the site, persistent | one-shot, position in {first call, call 127/128/129, last call}, and for '
           'the six producer-side sites what consumes the failing task\'s output: the result itself | a Reshuffle (several partitions, no combiner) | '
           'Map+Reduce (through a combiner)); the reduce combiner failed at its k-th invocation, k=0..39 (quick: 9 values), and a site reducebuf whose '
@@ -146,7 +147,7 @@ PROPS = {
           nbatch=(16, 16), timeout=(900, 3400),
           must_observe=['persistent_failures_reported', 'one_shot_failures_recovered', 'sessions_reused_after_failure']),
  'C13': P('fault_enumeration',
-          'cases = (executor, Cache|CachePartial, position of the cache operator in {head, middle, after a Materialize-pragma dependency, before a shuffle, after a shuffle, under a Head}, '
+          'cases = (executor, Cache|CachePartial, position of the cache operator in {head, middle, after a filter that keeps nothing (empty shards), after a Materialize-pragma dependency, before a shuffle, after a shuffle, under a Head}, '
           'shard count 1..3 (quick) / 1..4 (thorough), subset of shard files present before the second run (all subsets), fault plan). Fault plans: '
           'none; one fault at file-operation ordinal k of the write-through (k over the fault-free trace of the same program, quick: every 3rd/7th), '
           'optionally as a short write; the 1st/2nd Create or Close; every Write from ordinal k on failing persistently (k over the trace, so that no '
@@ -195,8 +196,8 @@ PROPS = {
           must_observe=['placement_nontrivial', 'manager_snapshots_checked', 'offers_granted', 'e2e_runs', 'local_runs', 'capacities_checked_against_max_load_share']),
  'C15': P('fault_enumeration',
           'three monitors. (a) sequences: every operation sequence up to length 4 (quick, every 3rd) / 5 (thorough) over the alphabet {create, '
-          'write 5, write 300, commit, discard-writer, open, open at offset 3, stat, discard} on both store implementations, fault-free; plus four '
-          'write/commit/read protocols on the file store with a fault (optionally a short write) injected at every file-operation ordinal 0..23 '
+          'write 5, write 300, commit, discard-writer, open, open at offset 3, stat, discard} on both store implementations, fault-free; plus six '
+          'write/commit/read protocols (two of them with two writers open for one partition) on both stores fault-free and on the file store with a fault (optionally a short write) injected at every file-operation ordinal 0..23 '
           'through the vfault file system. Oracle: a per-partition model: Open/Stat fail before a successful commit; afterwards Open(o) returns '
           'exactly committed[o:], Stat the committed size and record count, until discarded; a Commit that returned nil must have persisted the '
           'data (the next Open must succeed with those bytes). (b) retry reader (verif export) over a scripted stream: a transient failure at every '
